@@ -174,3 +174,92 @@ func VerifH_TreeConcurrent() {
 	}
 	symx.Reach("end")
 }
+
+// C03/H3b: Update / UpdateOrInsert are one write as far as concurrent readers can tell: every scan and
+// Get made by a reader while the writer replaces old by new sees the set before or the set after the
+// replacement, never an in-between set (the wrapper's mechanism is delete(old)+replaceOrInsert(new)).
+func VerifH_TreeUpdateAtomic() {
+	b := NewBTree()
+	mk := func(k int64, tag int) verifLockedKey { return verifLockedKey{btree.VerifKey{K: k, Tag: tag}, b} }
+	for i := int64(1); i <= 3; i++ {
+		b.Insert(mk(10*i, 0))
+	}
+	oldK := symx.Int64("oldKey")
+	newK := symx.Int64("newKey")
+	symx.Assume(oldK >= 5 && oldK <= 35 && newK >= 5 && newK <= 35)
+	orInsert := symx.Bool("orInsert")
+	oldPresent := oldK == 10 || oldK == 20 || oldK == 30
+	before := []int64{10, 20, 30}
+	var after []int64
+	for _, k := range before {
+		if !(oldPresent && k == oldK) {
+			after = append(after, k)
+		}
+	}
+	if oldPresent || orInsert {
+		ins := []int64{}
+		done := false
+		for _, k := range after {
+			if k == newK {
+				done = true
+			}
+			if !done && k > newK {
+				ins = append(ins, newK)
+				done = true
+			}
+			ins = append(ins, k)
+		}
+		if !done {
+			ins = append(ins, newK)
+		}
+		after = ins
+	}
+	var ok bool
+	var scan []Node
+	var got Node
+	tw := symx.Go("writer", func() {
+		if orInsert {
+			ok = b.UpdateOrInsert(mk(oldK, 0), mk(newK, 1))
+		} else {
+			ok = b.Update(mk(oldK, 0), mk(newK, 1))
+		}
+	})
+	tr := symx.Go("reader", func() {
+		scan = b.AscendGte(nil, func(Node) bool { return true }, 10)
+		got = b.Get(mk(newK, 0))
+	})
+	symx.WaitQuiescent()
+	symx.MustFinish(tw, "no deadlock")
+	symx.MustFinish(tr, "no deadlock")
+	symx.Assert(ok == oldPresent, "Update/UpdateOrInsert report whether the old item existed")
+	same := func(want []int64) bool {
+		if len(scan) != len(want) {
+			return false
+		}
+		for i := range want {
+			if scan[i].(verifLockedKey).K != want[i] {
+				return false
+			}
+		}
+		return true
+	}
+	symx.Assert(same(before) || same(after), "a concurrent scan sees the set before or after the update, never in between")
+	inBefore := newK == 10 || newK == 20 || newK == 30
+	inAfter := false
+	for _, k := range after {
+		if k == newK {
+			inAfter = true
+		}
+	}
+	if inBefore && inAfter {
+		symx.Assert(got != nil, "a key present before and after the update is never observed missing")
+	}
+	fin := b.AscendGte(nil, func(Node) bool { return true }, 10)
+	symx.Assert(len(fin) == len(after), "final contents")
+	for i := range after {
+		if i < len(fin) {
+			symx.Assert(fin[i].(verifLockedKey).K == after[i], "final contents in order")
+		}
+	}
+	symx.Reach("end")
+}
